@@ -108,6 +108,7 @@ static mj::Value cmd_c11(const mj::Value &rq) {
     chai.add(fun([](int p) { return std::make_shared<Tracked>(p); }), "make_sp");
     chai.add(fun([](int p) { return Tracked(p); }), "make_val");
     chai.add(fun([](int p) { return std::make_unique<Tracked>(p); }), "make_unique");
+    chai.add(fun([](std::shared_ptr<Tracked> &t, int p) { t = std::make_shared<Tracked>(p); return t->get(); }), "reseat");
     chai.add(fun([](const Tracked &t) -> int { t.touch(); throw std::runtime_error("thrower"); }), "by_cref_throw");
     chai.add(fun([](Tracked t) -> int { t.touch(); throw std::runtime_error("thrower"); }), "by_value_throw");
     chai.add(fun([held](const std::shared_ptr<Tracked> &t) { held->kept.push_back(t); return static_cast<int>(held->kept.size()); }), "keep");
